@@ -549,29 +549,18 @@ class World:
 		ctrl_if = toolkit.tk("ctrl_if")
 		udp_link = toolkit.tk("udp_link")
 		fake_pm = toolkit.tk("fake_pm")
-		thr = ThreadingSeam(sim)
-		tm = TimeSeam(sim)
 		env = RandomSeam(rng_for(self.plan.get("seed") or 0, "env"), self.env_log)
-		self.patch(clck_gen, "threading", thr)
-		self.patch(clck_gen, "time", tm)
-		self.patch(transceiver, "threading", thr)
-		self.patch(ctrl_if, "time", tm)
-		self.patch(udp_link, "socket", SimSocketModule(net))
-		self.patch(fake_trx, "select", SelectSeam(sim, net))
-		self.patch(fake_trx, "signal", _SignalStub)
-		# randomness in the data path: whatever way a toolkit module got hold of the random
-		# module or of its functions, it draws from the seeded env stream.  As a second line of
-		# defence the global PRNG is re-seeded per run as well (only one simulated thread runs at
-		# a time, so even unpatched draws are a pure function of the seed).
+		# Every source of nondeterminism goes behind a seam, however the module got hold of it
+		# (`import threading`, `from threading import Lock`, `import random`, ...).  As a second
+		# line of defence the global PRNG is re-seeded per run (only one simulated thread runs at
+		# a time, so even an unpatched draw is a pure function of the seed).
 		import random as _random
 		_random.seed(rng_for(self.plan.get("seed") or 0, "global-prng").getrandbits(64))
-		for mod in (fake_trx, fake_pm, transceiver, toolkit.tk("burst_fwd"), toolkit.tk("data_if"), ctrl_if,
-				toolkit.tk("ctrl_if_trx"), toolkit.tk("gsm_shared"), clck_gen, udp_link):
-			if mod.__dict__.get("random") is _random:
-				self.patch(mod, "random", env)
-			for fn in ("randint", "randrange", "choice", "uniform", "getrandbits", "shuffle", "sample"):
-				if fn in mod.__dict__ and mod.__dict__[fn] is getattr(_random, fn, None):
-					self.patch(mod, fn, getattr(env, fn))
+		mods = [fake_trx, fake_pm, transceiver, ctrl_if, clck_gen, udp_link] + [toolkit.tk(m) for m in
+			("burst_fwd", "data_if", "ctrl_if_trx", "gsm_shared", "trx_list", "app_common")]
+		from sim.seams import install_seams
+		install_seams(mods, self.patch, sim, net, env)
+		self.patch(fake_trx, "signal", _SignalStub)
 		trx = cfg["trx"]
 		argv = ["fake_trx", "-b", cfg.get("bind_addr", "0.0.0.0"),
 			"-R", trx[0]["addr"], "-P", str(trx[0]["port"]),
